@@ -9,6 +9,9 @@ LEVEL_TEXT = ("static: decides the two finite tables the semantics consist of: (
               "domains in configuration order in between, list length = ndomains + 1; (STOP) the set of statuses on which the walk continues is "
               "{ENODATA, ENOTFOUND} plus {ESERVFAIL, EREFUSED} only when the candidate just tried is single-label, NODATA is remembered, and the "
               "search and getaddrinfo walkers implement the same table on the same operand. Does not decide candidate strings for all names.")
+# fifth-round additions
+TECHNIQUE += "; " + 'must-pass-through of the alias lookup before every slot fill, interprocedural guard collection from getenv(LOCALDOMAIN) to the store of the domain list, facts at every end of the search after the last candidate'
+LEVEL_TEXT += " " + '(ORDER) the HOSTALIASES lookup precedes every candidate stored; (ENVDOMAIN) no test of the already configured list lies between LOCALDOMAIN and the store of the domains; (STOP) after the last candidate the search reports no-data or is known to have met no candidate without data.'
 LEVEL_NOTE = "trusts clang CFG + extractor; boundary lengths and string construction are not decided (C01 covers the over-long-name protocol defect)"
 DESIGN_REF = "DESIGN.md §6/C12"
 EXPLANATION = LEVEL_TEXT
